@@ -5,4 +5,5 @@ CONSTANTS
   KeepHist = FALSE
   GateAtomic = FALSE
   NonIdemRetry = TRUE
+  Defect_WaitResultsOnly = FALSE
 CHECK_DEADLOCK FALSE
